@@ -11,50 +11,6 @@ Import ListNotations.
 Local Open Scope Z_scope.
 
 (* ---------------------------------------------------------------- the fragment *)
-Definition pat_plain (p : option str) : bool :=
-  match p with
-  | Some p => negb (str_eqb p date_pattern) && negb (str_eqb p number_pattern)
-              && negb (str_eqb p Id62Gen.pattern_string)
-  | None => true
-  end.
-
-Inductive mode := MSingle | MArray | MMap.
-
-(* the declarations whose every component is carried by the annotations *)
-Definition no_list (t : fty) : bool :=
-  match t with
-  | TInt _ _ None | TStr _ _ None | TBytes _ | TBool _ None | TEnum _ None | TKey _ _ None
-  | TFloat _ None | TDate _ None | TDecimal _ None | TTimestamp None | TAny _ _ None
-  | TObject _ | TOneof None => true
-  | _ => false
-  end.
-
-Definition rt_fty (m : mode) (t : fty) : bool :=
-  (* list rules of map values are not read back *)
-  (match m with MMap => no_list t | _ => true end) &&
-  match m, t with
-  | _, TStr (Some _) _ _ => false            (* StringField.format is not written *)
-  | _, TStr None (Some r) _ => pat_plain (sr_pat r)
-  | _, TKey None e l =>
-      (* without a format the key is recognised by its annotations only *)
-      match l with Some _ => false | None => match m with MSingle => true | _ => is_some e end end
-  | _, TKey (Some KUuid) _ _ | _, TKey (Some KId62) _ _ => true
-  | _, TKey (Some _) _ _ => false          (* custom pattern / informal are not read back *)
-  | MSingle, _ => true
-  (* inside an array or a map there is no (j5.ext.v1.field) of the item *)
-  | _, TDate (Some _) _ | _, TDecimal (Some _) _ => false
-  | _, TObject true => false
-  | _, TAny od ts _ => negb od && match ts with [] => true | _ => false end
-  | _, _ => true
-  end.
-
-Definition rt_ok (d : prop) : bool :=
-  match p_ty d with
-  | PSingle t => rt_fty MSingle t
-  | PArray _ _ t => rt_fty MArray t && negb (p_opt d)
-  | PMap _ t => rt_fty MMap t && negb (p_opt d)
-  end.
-
 (* ---------------------------------------------------------------- helpers *)
 Definition vt_of (v : option constraint) : option tyc :=
   match v with Some c => c_ty c | None => None end.
@@ -201,7 +157,19 @@ Proof.
     apply obind_ok in Hw as [lst [Hl Hw]]. inversion Hw; subst w; clear Hw.
     destruct id62_not_wellknown as [Hd Hn].
     cbn [fw_kind read_field fw_val fw_list fw_ext fw_key norm_fty].
-    destruct f as [[|p| |]|]; try (destruct m; discriminate).
+    destruct f as [[|p| |]|].
+    + (* informal: only as a singular property, and never with list rules (compile error) *)
+      destruct m; try discriminate.
+      destruct l as [p0|]; [discriminate|]. inversion Hl; subst lst. unfold read_string. cbn.
+      destruct e as [[[[[|]|pp ee]|] tn]|]; reflexivity.
+    + (* custom *)
+      destruct m; try discriminate.
+      apply andb_true_iff in Hrt as [Hp Hnl]. destruct l as [p0|]; [discriminate|].
+      inversion Hl; subst lst. unfold pat_plain in Hp.
+      apply andb_true_iff in Hp as [Hp H3]. apply andb_true_iff in Hp as [H1 H2].
+      apply negb_true_iff in H1, H2, H3.
+      unfold read_string. cbn [only_ty c_ty vt_of]. rewrite H1, H2, H3. cbn.
+      destruct e as [[[[[|]|pp ee]|] tn]|]; reflexivity.
     + (* uuid *)
       destruct l as [p0|]; inversion Hl; subst lst; unfold read_string; cbn;
         destruct e as [[[[[|]|pp ee]|] tn]|]; destruct m; reflexivity.
@@ -236,6 +204,129 @@ Proof.
   - (* oneof *)
     inversion Hw; subst w; clear Hw. cbn [fw_kind fw_list read_field norm_fty].
     rewrite get_list_with_arm. reflexivity.
+Qed.
+
+
+(* ---------------------------------------------------------------- the fragment is exact *)
+(* Outside [rt_ok] the round trip fails: the fragment is not merely what could be
+   proved, it is exactly the set of declarations that read back as declared. *)
+Definition list_of (t : fty) : option lpay :=
+  match t with
+  | TInt _ _ l | TStr _ _ l | TBool _ l | TEnum _ l | TKey _ _ l | TFloat _ l | TDate _ l
+  | TDecimal _ l | TTimestamp l | TAny _ _ l | TOneof l => l
+  | TBytes _ | TObject _ => None
+  end.
+
+Lemma norm_fty_list env t : list_of (norm_fty env t) = list_of t.
+Proof. destruct t; reflexivity. Qed.
+
+Ltac break_in H :=
+  repeat (cbn [obind] in H;
+          match type of H with
+          | context [match ?x with _ => _ end] => destruct x; try discriminate
+          | context [if ?x then _ else _] => destruct x; try discriminate
+          end).
+
+Lemma read_string_list_none vt j5 key t' :
+  read_string vt None j5 key = Ok t' -> list_of t' = None.
+Proof.
+  unfold read_string. intro H. cbn [get_list] in H.
+  break_in H; inversion H; reflexivity.
+Qed.
+
+Lemma read_field_list_none env k vt j5 key t' :
+  read_field env k vt None j5 key = Ok t' -> list_of t' = None.
+Proof.
+  destruct k; cbn [read_field get_list]; intro H;
+    try (inversion H; reflexivity);
+    try (eapply read_string_list_none; eassumption).
+  - apply obind_ok in H as [r [_ H]]. inversion H. reflexivity.
+  - break_in H; inversion H; reflexivity.
+  - break_in H; inversion H; reflexivity.
+Qed.
+
+(* the reader never produces a string format *)
+Lemma read_string_no_format vt lst j5 key f r l :
+  read_string vt lst j5 key <> Ok (TStr (Some f) r l).
+Proof.
+  unfold read_string. intro H. break_in H; inversion H.
+Qed.
+
+Lemma pat_plain_false p :
+  pat_plain (Some p) = false ->
+  str_eqb p date_pattern = true \/ str_eqb p number_pattern = true \/ str_eqb p Id62Gen.pattern_string = true.
+Proof.
+  unfold pat_plain. destruct (str_eqb p date_pattern), (str_eqb p number_pattern), (str_eqb p Id62Gen.pattern_string);
+    cbn; intro H; try discriminate; auto.
+Qed.
+
+Lemma field_rt_conv env m t w :
+  rt_fty m t = false -> write_field env t = Ok w ->
+  read_field env (fw_kind w) (vt_seen m w) (list_seen m w) (j5_seen m w) (fw_key w) <> Ok (norm_fty env t).
+Proof.
+  intros Hrt Hw. unfold rt_fty in Hrt. apply andb_false_iff in Hrt as [Hnl|Hb].
+  - (* list rules on a map value *)
+    destruct m; try discriminate. cbn [list_seen]. intro H.
+    apply read_field_list_none in H. rewrite norm_fty_list in H.
+    destruct t; cbn [no_list list_of] in *; try discriminate; destruct l; discriminate.
+  - destruct t as [k r l|sf r l|r|r l|r l|f e l|f64 l|r l|r l|l|od ts l|fl|l];
+      try (destruct m; discriminate).
+    + (* string *)
+      inversion Hw; subst w; clear Hw. cbn [fw_kind read_field norm_fty].
+      destruct sf as [sf|]; [apply read_string_no_format|].
+      destruct r as [r|]; [|destruct m; discriminate].
+      assert (Hp : pat_plain (sr_pat r) = false) by (destruct m; exact Hb).
+      destruct (sr_pat r) as [p|] eqn:Ep; [|discriminate].
+      unfold vt_seen. cbn [fw_val vt_of only_ty c_ty]. unfold read_string.
+      destruct (pat_plain_false p Hp) as [H1|[H1|H1]]; rewrite ?H1; cbn [orb obind].
+      * discriminate.
+      * rewrite orb_true_r. discriminate.
+      * destruct (str_eqb p date_pattern || str_eqb p number_pattern); [discriminate|].
+        cbn [obind]. intro H. break_in H; inversion H.
+    + (* key *)
+      apply obind_ok in Hw as [lst [Hl Hw]]. inversion Hw; subst w; clear Hw.
+      destruct id62_not_wellknown as [Hd Hn].
+      cbn [fw_kind read_field norm_fty]. unfold vt_seen. cbn [fw_val fw_list fw_ext fw_key].
+      destruct f as [[|p| |]|].
+      * (* informal, not singular *)
+        destruct m; try discriminate; cbn [j5_seen list_seen];
+          (destruct l as [p0|]; [discriminate|]); inversion Hl; subst lst;
+          unfold read_string; cbn; destruct e; cbn; discriminate.
+      * (* custom *)
+        destruct m.
+        -- (* singular: well-known pattern, or list rules *)
+           cbn [j5_seen list_seen fw_ext fw_list]. apply andb_false_iff in Hb as [Hp|Hls].
+           ++ unfold read_string. cbn [vt_of only_ty c_ty].
+              destruct (pat_plain_false p Hp) as [H1|[H1|H1]]; rewrite ?H1; cbn [orb obind].
+              ** discriminate.
+              ** rewrite orb_true_r. discriminate.
+              ** destruct (str_eqb p date_pattern || str_eqb p number_pattern); [discriminate|].
+                 cbn [obind]. intro H. break_in H; inversion H.
+           ++ destruct l as [p0|]; [|discriminate]. inversion Hl; subst lst.
+              unfold read_string. cbn [vt_of only_ty c_ty]. intro H. break_in H; inversion H.
+        -- cbn [j5_seen list_seen]. unfold read_string. intro H. break_in H; inversion H.
+        -- cbn [j5_seen list_seen]. unfold read_string. intro H. break_in H; inversion H.
+      * destruct m; discriminate.
+      * destruct m; discriminate.
+      * (* no format *)
+        destruct l as [p0|].
+        -- inversion Hl; subst lst.
+           destruct m; cbn [j5_seen list_seen fw_ext fw_list]; unfold read_string; cbn;
+             intro H; break_in H; inversion H.
+        -- inversion Hl; subst lst. destruct m; try discriminate;
+             destruct e; try discriminate; cbn [j5_seen list_seen]; unfold read_string; cbn; discriminate.
+    + (* date *)
+      inversion Hw; subst w; clear Hw. destruct m, r; try discriminate;
+        cbn [fw_kind read_field norm_fty j5_seen]; discriminate.
+    + (* decimal *)
+      inversion Hw; subst w; clear Hw. destruct m, r; try discriminate;
+        cbn [fw_kind read_field norm_fty j5_seen]; discriminate.
+    + (* any *)
+      inversion Hw; subst w; clear Hw. destruct m; try discriminate;
+        cbn [fw_kind read_field norm_fty j5_seen]; intro H; inversion H; subst; discriminate.
+    + (* object *)
+      inversion Hw; subst w; clear Hw. destruct m, fl; try discriminate;
+        cbn [fw_kind read_field norm_fty j5_seen]; discriminate.
 Qed.
 
 (* ---------------------------------------------------------------- one property *)
@@ -345,6 +436,111 @@ Proof.
       rewrite Hf; reflexivity.
 Qed.
 
+
+(* the converse, for properties *)
+Lemma c04_prop_conv env idx d o :
+  rt_ok d = false -> write_prop env idx d = Ok o ->
+  read_prop env o <> Ok (norm_prop env idx d).
+Proof.
+  intros Hrt Hw.
+  destruct d as [name req opt ty desc]. unfold rt_ok in Hrt. cbn [p_ty p_opt] in Hrt.
+  unfold write_prop in Hw. cbn [p_name p_req p_opt p_ty p_desc] in Hw.
+  apply obind_ok in Hw as [w [Hwf Hw]].
+  destruct ty as [t|r sf t|r t].
+  - (* singular *)
+    pose proof (write_field_primary_ty env t w Hwf) as Hprim.
+    assert (Hw' : (if opt && (req || is_primary_ty t) then Err "cannot be both required and optional"
+                   else Ok (FO name (idx + 1)%N (fw_kind w) false opt (opt || is_msg_kind (fw_kind w))
+                              (if req || is_primary_ty t then set_required (fw_val w) else fw_val w)
+                              (fw_ext w) (fw_list w) (fw_key w) desc)) = Ok o).
+    { rewrite <- Hprim. destruct (fw_key w); exact Hw. }
+    clear Hw. set (required := req || is_primary_ty t) in *.
+    destruct (opt && required) eqn:Eor; [discriminate|]. inversion Hw'; subst o; clear Hw'.
+    pose proof (field_rt_conv env MSingle t w Hrt Hwf) as Hc.
+    unfold vt_seen in Hc; cbn [list_seen j5_seen] in Hc.
+    unfold read_prop.
+    cbn [fo_kind fo_rep fo_val fo_list fo_ext fo_key fo_json fo_number fo_desc fo_opt].
+    pose proof (kind_not_map env t w Hwf) as Hk.
+    replace (match (if required then set_required (fw_val w) else fw_val w) with
+             | Some c => c_ty c | None => None end) with (vt_of (fw_val w))
+      by (destruct required; [rewrite <- vt_set_required|]; reflexivity).
+    destruct (fw_kind w) eqn:Ek; try (exfalso; eapply Hk; reflexivity);
+      destruct (read_field env _ (vt_of (fw_val w)) (fw_list w) (fw_ext w) (fw_key w)) as [t'| | |];
+      cbn [obind]; intro H; try discriminate;
+      apply Hc; unfold norm_prop in H; cbn [p_ty] in H; inversion H; reflexivity.
+  - (* array *)
+    apply obind_ok in Hwf as [wi [Hwt Hwa]]. inversion Hwa; subst w; clear Hwa.
+    pose proof (write_field_primary_ty env t wi Hwt) as Hprim.
+    cbn [wrap_array fw_key fw_kind fw_val fw_ext fw_list] in Hw.
+    assert (Hw' : (if opt && (req || is_primary_ty t) then Err "cannot be both required and optional"
+                   else Ok (FO name (idx + 1)%N (fw_kind wi) true opt false
+                         (if req || is_primary_ty t then set_required (fw_val (wrap_array r sf wi)) else fw_val (wrap_array r sf wi))
+                         (Some (XArray sf)) (fw_list wi) (fw_key wi) desc)) = Ok o).
+    { rewrite <- Hprim. destruct (fw_key wi); exact Hw. }
+    clear Hw. set (required := req || is_primary_ty t) in *.
+    destruct (opt && required) eqn:Eor; [discriminate|]. inversion Hw'; subst o; clear Hw'.
+    unfold read_prop.
+    cbn [fo_kind fo_rep fo_val fo_list fo_ext fo_key fo_json fo_number fo_desc fo_opt].
+    pose proof (kind_not_map env t wi Hwt) as Hk.
+    apply andb_false_iff in Hrt as [Hrt|Hopt].
+    + pose proof (field_rt_conv env MArray t wi Hrt Hwt) as Hc.
+      unfold vt_seen in Hc; cbn [list_seen j5_seen] in Hc.
+      destruct (fw_kind wi) eqn:Ek; try (exfalso; eapply Hk; reflexivity);
+        lazy iota beta;
+        unfold norm_prop; cbn [p_name p_req p_opt p_ty p_desc];
+        destruct required; destruct r as [[mn mx uq]|]; destruct (fw_val wi) as [c|] eqn:Ev;
+        cbn [wrap_array fw_val set_required is_some orb only_ty c_ty c_req ar_min ar_max ar_uniq vt_of] in *;
+        match goal with
+        | |- obind ?rf _ <> _ => destruct rf as [t'| | |]; cbn [obind]; intro H; try discriminate;
+                                 apply Hc; inversion H; reflexivity
+        end.
+    + apply negb_false_iff in Hopt. subst opt.
+      destruct (fw_kind wi) eqn:Ek; try (exfalso; eapply Hk; reflexivity);
+        lazy iota beta;
+        match goal with
+        | |- (let '(_, _) := ?x in _) <> _ => destruct x as [rules items]
+        end;
+        match goal with
+        | |- obind ?rf _ <> _ => destruct rf as [t'| | |]; cbn [obind]; intro H; try discriminate;
+                                 unfold norm_prop in H; cbn [p_opt] in H; inversion H
+        end.
+  - (* map *)
+    apply obind_ok in Hwf as [wi [Hwt Hwa]]. inversion Hwa; subst w; clear Hwa.
+    cbn [wrap_map fw_key fw_kind fw_val fw_ext fw_list andb orb] in Hw.
+    rewrite orb_false_r in Hw.
+    destruct (opt && req) eqn:Eor; [discriminate|]. inversion Hw; subst o; clear Hw.
+    unfold read_prop.
+    cbn [fo_kind fo_rep fo_val fo_list fo_ext fo_key fo_json fo_number fo_desc fo_opt].
+    apply andb_false_iff in Hrt as [Hrt|Hopt].
+    + pose proof (field_rt_conv env MMap t wi Hrt Hwt) as Hc.
+      unfold vt_seen in Hc; cbn [list_seen j5_seen] in Hc.
+      unfold norm_prop; cbn [p_name p_req p_opt p_ty p_desc].
+      destruct req; destruct r as [[mn mx]|]; destruct (fw_val wi) as [c|] eqn:Ev;
+        cbn [set_required is_some orb only_ty c_ty c_req mr_min mr_max vt_of] in *;
+        match goal with
+        | |- obind ?rf _ <> _ => destruct rf as [t'| | |]; cbn [obind]; intro H; try discriminate;
+                                 apply Hc; inversion H; reflexivity
+        end.
+    + apply negb_false_iff in Hopt. subst opt.
+      match goal with
+      | |- (let '(_, _) := ?x in _) <> _ => destruct x as [rules values]
+      end;
+      match goal with
+      | |- obind ?rf _ <> _ => destruct rf as [t'| | |]; cbn [obind]; intro H; try discriminate;
+                               unfold norm_prop in H; cbn [p_opt] in H; inversion H
+      end.
+Qed.
+
+(* a property reads back as declared exactly when it lies in the fragment *)
+Theorem c04_prop_exact env idx d o :
+  write_prop env idx d = Ok o ->
+  (read_prop env o = Ok (norm_prop env idx d) <-> rt_ok d = true).
+Proof.
+  intro Hw. split.
+  - intro H. destruct (rt_ok d) eqn:E; [reflexivity|]. exfalso. exact (c04_prop_conv env idx d o E Hw H).
+  - intro H. exact (c04_prop env idx d o H Hw).
+Qed.
+
 (* ---------------------------------------------------------------- objects *)
 Fixpoint norm_props_from (env : enum_env) (idx : N) (ds : list prop) : list rprop :=
   match ds with
@@ -370,6 +566,32 @@ Theorem c04_object env ds os :
   forallb rt_ok ds = true -> write_object env ds = Ok os ->
   read_object env os = Ok (norm_object env ds).
 Proof. apply c04_props_from. Qed.
+
+Lemma c04_props_from_exact env ds : forall idx os,
+  write_props_from env idx ds = Ok os ->
+  (read_object env os = Ok (norm_props_from env idx ds) <-> forallb rt_ok ds = true).
+Proof.
+  induction ds as [|d r IH]; intros idx os Hw; cbn in Hw.
+  - inversion Hw. split; reflexivity.
+  - apply obind_ok in Hw as [o [Ho Hw]]. apply obind_ok in Hw as [os' [Hos Hw]].
+    inversion Hw; subst os. cbn [read_object norm_props_from forallb].
+    split.
+    + intro H. destruct (read_prop env o) as [p| | |] eqn:Ep; cbn [obind] in H; try discriminate.
+      destruct (read_object env os') as [ps| | |] eqn:Eps; cbn [obind] in H; try discriminate.
+      inversion H; subst.
+      apply andb_true_iff. split.
+      * apply (c04_prop_exact env idx d o Ho). exact Ep.
+      * apply (IH (idx + 1)%N os' Hos). exact Eps.
+    + intro H. apply andb_true_iff in H as [Hd Hr].
+      rewrite (c04_prop env idx d o Hd Ho). cbn [obind].
+      rewrite (proj2 (IH (idx + 1)%N os' Hos) Hr). reflexivity.
+Qed.
+
+(* an object reads back as declared exactly when all its properties lie in the fragment *)
+Theorem c04_object_exact env ds os :
+  write_object env ds = Ok os ->
+  (read_object env os = Ok (norm_object env ds) <-> forallb rt_ok ds = true).
+Proof. apply c04_props_from_exact. Qed.
 
 (* the normal form keeps names, order and positions *)
 Lemma norm_object_names env ds :
@@ -446,4 +668,23 @@ Proof.
   unfold read_enum, norm_enum. rewrite Hv.
   rewrite has_suffix_app. cbn [negb]. rewrite trim_suffix_app.
   rewrite <- Hv. reflexivity.
+Qed.
+
+(* ---------------------------------------------------------------- the printed text *)
+(* Reflection depends on a field only through [c04_proj]. Hence: if printing and
+   re-parsing a file preserves that view of every field (C05's subject; checked
+   on every generated object by the correspondence stream C04Text), the schema
+   reflected from the text is the schema reflected from memory. *)
+Lemma read_prop_view env o o' : c04_proj o = c04_proj o' -> read_prop env o = read_prop env o'.
+Proof.
+  intro H. unfold c04_proj in H. inversion H as [[Hj Hn Hk Hr Ho Hv He Hl Hky Hd]].
+  unfold read_prop. rewrite Hj, Hn, Hk, Hr, Ho, Hv, He, Hl, Hky, Hd. reflexivity.
+Qed.
+
+Theorem c04_text_clause env : forall os os',
+  Forall2 (fun o o' => c04_proj o = c04_proj o') os os' ->
+  read_object env os' = read_object env os.
+Proof.
+  intros os os' H. induction H as [|o o' r r' Ho Hr IH]; [reflexivity|].
+  cbn [read_object]. rewrite (read_prop_view env o o' Ho). rewrite IH. reflexivity.
 Qed.
